@@ -4,6 +4,7 @@ import Pcore.Proofs.TlsLoaders
 import Pcore.Proofs.Gid
 import Pcore.Proofs.GidFacts
 import Pcore.Proofs.TlsRefine
+import Pcore.Proofs.TlsGhost
 import Pcore.Model.TlsFacts
 import Pcore.Generated.GidFacts
 /-!
@@ -64,9 +65,14 @@ Full statement / proved / missing
   model and the `C14s_*` invariants hold of big-step runs too (`C14_run_current_via_small`).                          **proved**
   Full statement `C14_refines_full` (no fuel hypothesis); missing: that `fuelFor p` always suffices (`(run .now s p).oof = false`;
   the driver prints `fuel` otherwise, which no correspondence run has ever shown).
-  Remaining for the small-step model: the loader-chain exclusivity invariant `LInv` over `Reachable` (needed to conclude from
-  `C14s_defs_step` that a parent's `Load` answers do not depend on its children; proved for the big-step model:
-  `C14_parent_loads_unaffected`, and through the refinement for every nested execution of the small-step model).
+  LOADER ENTRIES under arbitrary interleavings (`Proofs/TlsGhost.lean`): every reachable configuration is decorated with two ghost
+  maps the semantics never reads (`own l` = the goroutine loader `l` was allocated for, `par b` = the goroutine that started `b`;
+  `C14s_ghost`); invariant `GInv` of every decorated reachable configuration (`ginv_step`): loaders on the chain of a context of
+  `b` are the environment loader or belong to an ancestor-or-self of `b`, the defining loader of a body context belongs to the
+  goroutine that runs the body.  `C14s_defs_owned`: a micro-step of `g` writes only loaders of `g` (never the environment loader);
+  `C14s_defs_isolated`: it changes neither the context objects nor any `Load` answer of a goroutine that does not descend from
+  `g`; `C14s_defs_invisible_to_older`: in particular of every OLDER goroutine — the parent, older siblings, their ancestors —
+  at every point of every interleaving.                                                                      **proved**
   Atomicity of a micro-step: one call into pcore up to where it calls back the actor, or one deferred function.
 * SECOND TIE — `C14_facts_now` + `C14_facts_*`: the shape table regenerated from px/context.go, internal/context.go,
   internal/runtime.go, threadlocal/gid.go on every run (family `ctxfacts`) equals the shape the model mirrors; it selects
@@ -488,6 +494,56 @@ example : ((Cfg.steps sampleSched2 (Cfg.init sampleInter)).gs.map fun g => (g.gi
     (Cfg.steps sampleSched2 (Cfg.init sampleInter)).w.estab = [(0, 0), (0, 1), (1, 2), (1, 3)] := by decide
 example : ∀ gid, (Cfg.steps sampleSched2 (Cfg.init sampleInter)).w.tls gid = none :=
   (C14s_released (reachable_steps _ Reachable.init) (by decide)).1
+
+/-! ## loader entries under arbitrary interleavings (`Proofs/TlsGhost.lean`) -/
+
+/-- every reachable configuration has a decoration (who a loader was allocated for, who started whom); the semantics never reads it -/
+theorem C14s_ghost {p : Prog} {c : Cfg} (h : Reachable p c) : ∃ gh, ReachG p c gh := reachable_ghost h
+
+/-- a micro-step of goroutine `g` writes the entry table of a loader only if that loader was allocated for `g`; the shared
+    environment loader `0` is never written -/
+theorem C14s_defs_owned {p : Prog} {c : Cfg} {gh : Ghost} (h : ReachG p c gh) (hn : c ≠ Cfg.init p) (i : Nat) (g : GS)
+    (hi : c.gs[i]? = some g) (l : LoaderId) (hl : l < c.w.nextLoader) (hne : gh.own l ≠ g.gid ∨ l = 0) :
+    (c.step i).w.defs l = c.w.defs l := by
+  rcases reachG_inv h with ⟨h0, _⟩ | ⟨hc, hg⟩
+  · exact absurd h0 hn
+  · exact defs_owned hc hg hi hl hne
+
+/-- definitions made by `g` — and everything else `g` does in a micro-step — are invisible to every goroutine `b` that does not
+    descend from `g`: the contexts of `b` (installed for it, or made for it while it waits to start) keep their state and every
+    `px.Load` through them answers as before.  At every point of EVERY interleaving. -/
+theorem C14s_defs_isolated {p : Prog} {c : Cfg} {gh : Ghost} (h : ReachG p c gh) (i : Nat) (g : GS) (hi : c.gs[i]? = some g)
+    (b : Gid) (j : CtxId) (hj : CtxOf c b j) (hna : ¬ Anc gh.par g.gid b) (n : String) :
+    (c.step i).w.ctxs j = c.w.ctxs j ∧
+    loadEntry (c.step i).w.defs (c.w.ctxs j).loader n = loadEntry c.w.defs (c.w.ctxs j).loader n := by
+  rcases reachG_inv h with ⟨h0, _⟩ | ⟨hc, hg⟩
+  · subst h0
+    rcases hj with hj | ⟨m, hm, hms, _⟩
+    · simp [Cfg.init] at hj
+    · simp [Cfg.init] at hm; subst hm; simp at hms
+  · exact loads_isolated hc hg hi hj hna n
+
+/-- … in particular to every goroutine OLDER than `g` (goroutine ids are handed out in order of creation): the goroutine that
+    started `g`, `g`'s older siblings, all their ancestors -/
+theorem C14s_defs_invisible_to_older {p : Prog} {c : Cfg} {gh : Ghost} (h : ReachG p c gh) (i : Nat) (g : GS)
+    (hi : c.gs[i]? = some g) (b : Gid) (j : CtxId) (hj : CtxOf c b j) (hb : b < g.gid) (n : String) :
+    (c.step i).w.ctxs j = c.w.ctxs j ∧
+    loadEntry (c.step i).w.defs (c.w.ctxs j).loader n = loadEntry c.w.defs (c.w.ctxs j).loader n := by
+  rcases reachG_inv h with ⟨h0, _⟩ | ⟨_, hg⟩
+  · subst h0
+    rcases hj with hj | ⟨m, hm, hms, _⟩
+    · simp [Cfg.init] at hj
+    · simp [Cfg.init] at hm; subst hm; simp at hms
+  · exact C14s_defs_isolated h i g hi b j hj (not_anc_of_lt hg hb) n
+
+/-- non-vacuity: in `sampleInter` after `sampleSched1` (the parent has forked and gone on, the child has started) goroutine 1 was
+    started by goroutine 0, context 1 is installed for goroutine 0, goroutine 1 is at index 1 and is younger -/
+example : ReachG sampleInter (Cfg.steps sampleSched1 (Cfg.init sampleInter)) (ghSteps sampleSched1 (Cfg.init sampleInter) {}) :=
+  reachG_steps _ ReachG.init
+example : (ghSteps sampleSched1 (Cfg.init sampleInter) {}).par 1 = 0 ∧
+    CtxOf (Cfg.steps sampleSched1 (Cfg.init sampleInter)) 0 1 ∧
+    ((Cfg.steps sampleSched1 (Cfg.init sampleInter)).gs[1]?.map (·.gid)) = some 1 ∧ (0 : Gid) < 1 := by
+  refine ⟨by decide, Or.inl (by decide), by decide, by decide⟩
 
 /-! ## refinement: every big-step run is an execution of the small-step model (`Proofs/TlsRefine.lean`) -/
 
